@@ -224,8 +224,11 @@ impl<'a, 'b> Gen<'a, 'b> {
                     if legal && self.cfg.deprecated && !out.iter().any(|a| a.directive == "deprecated") {
                         if self.chance(128) {
                             Some(AttrM::new("deprecated", &[]))
-                        } else {
+                        } else if self.chance(128) {
                             Some(AttrM::new("deprecated", &["use something else"]))
+                        } else {
+                            // any reason is kept as written: empty, quotes, backslashes, ...
+                            Some(AttrM::new("deprecated", &[ARG_POOL[self.pick(ARG_POOL.len())]]))
                         }
                     } else {
                         None
